@@ -371,10 +371,10 @@ class PDFStandardSecurityHandler:
 
     def init_params(self) -> None:
         self.v = int_value(self.param.get("V", 0))
-        self.r = int_value(self.param["R"])
-        self.p = uint_value(self.param["P"], 32)
-        self.o = str_value(self.param["O"])
-        self.u = str_value(self.param["U"])
+        self.r = int_value(self.param.get("R"))
+        self.p = uint_value(self.param.get("P"), 32)
+        self.o = str_value(self.param.get("O"))
+        self.u = str_value(self.param.get("U"))
         self.length = int_value(self.param.get("Length", 40))
 
     def init_key(self) -> None:
@@ -504,7 +504,7 @@ class PDFStandardSecurityHandlerV4(PDFStandardSecurityHandler):
             raise PDFEncryptionError(error_msg)
         self.cfm = {}
         for k, v in self.cf.items():
-            f = self.get_cfm(literal_name(v["CFM"]))
+            f = self.get_cfm(literal_name(dict_value(v).get("CFM")))
             if f is None:
                 error_msg = "Unknown crypt filter method: param=%r" % self.param
                 raise PDFEncryptionError(error_msg)
@@ -583,8 +583,12 @@ class PDFStandardSecurityHandlerV5(PDFStandardSecurityHandlerV4):
     def init_params(self) -> None:
         super().init_params()
         self.length = 256
-        self.oe = str_value(self.param["OE"])
-        self.ue = str_value(self.param["UE"])
+        self.oe = str_value(self.param.get("OE"))
+        self.ue = str_value(self.param.get("UE"))
+        if len(self.oe) != 32 or len(self.ue) != 32:
+            # they hold the encrypted 256-bit file encryption key
+            error_msg = "Invalid length of OE or UE: param=%r" % self.param
+            raise PDFEncryptionError(error_msg)
         self.o_hash = self.o[:32]
         self.o_validation_salt = self.o[32:40]
         self.o_key_salt = self.o[40:]
